@@ -27,13 +27,15 @@ Inputs(e) ==
                                          key |-> HexToBytes(e.chain[i].key)]]]
 
 \* "yields that wallet's public key": the key the harness calls the owner's is the public key of the owner's seed
-OwnerOK(e) == Has(e, "owner_seed") => BytesToHex(EdPubFromSeed(HexToBytes(e.owner_seed))) = e.owner_pub
+\* (evaluated where the code accepted: a scalar multiplication in BigInteger arithmetic is the dearest step of a judgement)
+OwnerOK(e) == (Has(e, "owner_seed") /\ e.go.ok) => BytesToHex(EdPubFromSeed(HexToBytes(e.owner_seed))) = e.owner_pub
 
 JudgeCheck(e) ==
   LET f == Facts(Inputs(e))
       d == Decide(f)
-  IN /\ PrintT(<<"NOTE", l, ToJson([kind |-> "check", v |-> d.v, key |-> d.key, f |-> f, owner |-> OwnerOK(e)])>>)
-     /\ OwnerOK(e)
+      own == OwnerOK(e)
+  IN /\ PrintT(<<"NOTE", l, ToJson([kind |-> "check", v |-> d.v, key |-> d.key, f |-> f, owner |-> own])>>)
+     /\ own
      /\ Matches(e.go, d)
 
 Result(g, want) == /\ g.panic = ""
